@@ -510,6 +510,8 @@ Lemma import_rhs_ok : rhs_table_ok expected_import ReflectGen.import_rhs = true.
 Proof. vm_compute. reflexivity. Qed.
 Lemma export_rhs_ok : rhs_table_ok (fun _ => expected_export) ReflectGen.export_rhs = true.
 Proof. vm_compute. reflexivity. Qed.
+Lemma export_rhs_complete : export_table_complete ReflectGen.export_rhs = true.
+Proof. vm_compute. reflexivity. Qed.
 (* every member the model treats as copied has an expected source text (so the check above is not vacuous) *)
 Lemma import_rhs_covers :
   forallb (fun e => match e with (site, typ, kvs) =>
